@@ -150,7 +150,7 @@ func c14Retention(rep *core.Report) {
 		st := st
 		alphabet = append(alphabet, enc{"status:" + c14Labels[st], `"` + c14Labels[st] + `"`, func() ([]byte, error) { return st.MarshalJSON() }})
 	}
-	for _, src := range lint.GlobalRegistry().Sources() {
+	for _, src := range sortedSources(lint.GlobalRegistry()) {
 		src := src
 		if len(alphabet) >= 11 {
 			break
